@@ -15,13 +15,13 @@ Proof. unfold run. apply fold_left_app. Qed.
 Fixpoint e2e_run (st : state) (next : N) (ops : list e2e_op) : state :=
   match ops with
   | [] => st
-  | o :: t => let '(st', n') := e2e_step L st next o in e2e_run st' n' t
+  | o :: t => let '(st', n') := e2e_step L false st next o in e2e_run st' n' t
   end.
 
 Theorem e2e_run_is_run : forall ops st next, e2e_run st next ops = run L st (e2e_script L st next ops).
 Proof.
   induction ops as [|o t IH]; intros st next; cbn [e2e_run e2e_script]; [reflexivity|].
-  unfold e2e_step. destruct (e2e_ops L st next o) as [os n']. rewrite run_app. apply IH.
+  unfold e2e_step. destruct (e2e_ops L false st next o) as [os n']. rewrite run_app. apply IH.
 Qed.
 
 (* ---------- the script never injects a WouldBlock ---------- *)
@@ -48,35 +48,35 @@ Proof.
   destruct (w_open w); [|reflexivity]. now apply NW_repeat.
 Qed.
 
-Lemma round_nw st : NW (round_ops L st).
-Proof. unfold round_ops. apply NW_cons; [reflexivity|apply picks_nw]. Qed.
+Lemma round_nw blk st : NW (round_ops L blk st).
+Proof. unfold round_ops. apply NW_cons; [reflexivity|]. destruct blk; [reflexivity | apply picks_nw]. Qed.
 
-Lemma settle_nw k : forall st, NW (settle_ops L k st).
+Lemma settle_nw blk k : forall st, NW (settle_ops L blk k st).
 Proof. induction k as [|k IH]; intros st; cbn [settle_ops]; [reflexivity|]. apply NW_app; [apply round_nw|apply IH]. Qed.
 
-Lemma settle_faults_nw k : forall handled st, NW (settle_faults_ops L k handled st).
+Lemma settle_faults_nw blk k : forall handled st, NW (settle_faults_ops L blk k handled st).
 Proof.
   induction k as [|k IH]; intros handled st; cbn [settle_faults_ops]; [reflexivity|].
   destruct (new_faults handled st) as [|f fs]; [reflexivity|].
   apply NW_app; [apply NW_map; reflexivity|]. apply NW_app; [apply settle_nw|apply IH].
 Qed.
 
-Lemma settled_nw st first : NW first -> NW (settled_ops L st first).
+Lemma settled_nw blk st first : NW first -> NW (settled_ops L blk st first).
 Proof.
   intros Hf. unfold settled_ops. apply NW_app; [exact Hf|]. apply NW_app; [apply settle_nw|apply settle_faults_nw].
 Qed.
 
-Lemma kill_nw st tok cid : NW (kill_ops L st tok cid).
+Lemma kill_nw blk st tok cid : NW (kill_ops L blk st tok cid).
 Proof.
   unfold kill_ops.
-  assert (H1 : NW (E (Connect tok cid) :: settle_ops L 4 (step L st (E (Connect tok cid))))).
+  assert (H1 : NW (E (Connect tok cid) :: settle_ops L blk 4 (step L st (E (Connect tok cid))))).
   { apply NW_cons; [reflexivity|apply settle_nw]. }
   destruct (holder cid 0 (ws _)) as [g|]; [|exact H1].
   destruct (nth_error (ws _) g) as [w|]; [|exact H1].
   apply NW_app; [exact H1|]. apply NW_cons; [reflexivity|]. apply NW_cons; [reflexivity|]. apply NW_map. reflexivity.
 Qed.
 
-Lemma e2e_ops_nw st next o : NW (fst (e2e_ops L st next o)).
+Lemma e2e_ops_nw blk st next o : NW (fst (e2e_ops L blk st next o)).
 Proof.
   destruct o; cbn [e2e_ops fst]; try (apply settled_nw; repeat (apply NW_cons; [reflexivity|]); reflexivity).
   - destruct (holder cid 0 (ws st)); cbn [fst]; [|reflexivity].
@@ -89,41 +89,41 @@ Qed.
 Theorem e2e_script_nw : forall ops st next, NW (e2e_script L st next ops).
 Proof.
   induction ops as [|o t IH]; intros st next; cbn [e2e_script]; [reflexivity|].
-  pose proof (e2e_ops_nw st next o) as H. destruct (e2e_ops L st next o) as [os n']. cbn [fst] in H.
+  pose proof (e2e_ops_nw false st next o) as H. destruct (e2e_ops L false st next o) as [os n']. cbn [fst] in H.
   apply NW_app; [exact H|apply IH].
 Qed.
 
-(* ---------- the same with abortive clients ---------- *)
-Fixpoint e2e_run_ab (st : state) (next : N) (ops : list (list N * e2e_op)) : state :=
+(* ---------- the same with abortive clients and back-pressure episodes ---------- *)
+Fixpoint e2e_run_ab (st : state) (next : N) (ops : list (bool * list N * e2e_op)) : state :=
   match ops with
   | [] => st
-  | (ab, o) :: t => let '(st', n') := e2e_step_ab L ab st next o in e2e_run_ab st' n' t
+  | (blk, ab, o) :: t => let '(st', n') := e2e_step_ab L blk ab st next o in e2e_run_ab st' n' t
   end.
 
-Lemma abortive_nw fuel : forall ab st next, NW (abortive_ops L fuel ab st next).
+Lemma abortive_nw blk fuel : forall ab st next, NW (abortive_ops L blk fuel ab st next).
 Proof.
   induction fuel as [|f IH]; intros ab st next; cbn [abortive_ops]; [reflexivity|].
   destruct (find (in_progress st) ab) as [c|]; [|reflexivity].
   apply NW_app; [apply e2e_ops_nw | apply IH].
 Qed.
 
-Lemma e2e_ops_ab_nw ab st next o : NW (fst (e2e_ops_ab L ab st next o)).
+Lemma e2e_ops_ab_nw blk ab st next o : NW (fst (e2e_ops_ab L blk ab st next o)).
 Proof.
-  unfold e2e_ops_ab. pose proof (e2e_ops_nw st next o) as H. destruct (e2e_ops L st next o) as [os n']. cbn [fst] in *.
+  unfold e2e_ops_ab. pose proof (e2e_ops_nw blk st next o) as H. destruct (e2e_ops L blk st next o) as [os n']. cbn [fst] in *.
   apply NW_app; [exact H | apply abortive_nw].
 Qed.
 
 Theorem e2e_script_ab_nw : forall ops st next, NW (e2e_script_ab L st next ops).
 Proof.
-  induction ops as [|[ab o] t IH]; intros st next; cbn [e2e_script_ab]; [reflexivity|].
-  pose proof (e2e_ops_ab_nw ab st next o) as H. destruct (e2e_ops_ab L ab st next o) as [os n']. cbn [fst] in H.
+  induction ops as [|[[blk ab] o] t IH]; intros st next; cbn [e2e_script_ab]; [reflexivity|].
+  pose proof (e2e_ops_ab_nw blk ab st next o) as H. destruct (e2e_ops_ab L blk ab st next o) as [os n']. cbn [fst] in H.
   apply NW_app; [exact H | apply IH].
 Qed.
 
 Theorem e2e_run_ab_is_run : forall ops st next, e2e_run_ab st next ops = run L st (e2e_script_ab L st next ops).
 Proof.
-  induction ops as [|[ab o] t IH]; intros st next; cbn [e2e_run_ab e2e_script_ab]; [reflexivity|].
-  unfold e2e_step_ab. destruct (e2e_ops_ab L ab st next o) as [os n']. rewrite run_app. apply IH.
+  induction ops as [|[[blk ab] o] t IH]; intros st next; cbn [e2e_run_ab e2e_script_ab]; [reflexivity|].
+  unfold e2e_step_ab. destruct (e2e_ops_ab L blk ab st next o) as [os n']. rewrite run_app. apply IH.
 Qed.
 
 Theorem e2e_ab_state_inv W kinds ops : AInv (e2e_run_ab (init W kinds) 1%N ops).
